@@ -344,7 +344,7 @@ func depWalk(r *engine.Run) {
 			r.CallSites++
 			r.Check(l != 0 && l&^(labQueried|labLink) == 0, rule, o.next(fn(f)+"|version-lookup"), r.P.Pos(c.Pos()),
 				"per-key lookup at the queried hash or an ancestor link", "a per-key lookup uses a block hash that is neither the queried one nor on its ancestor chain")
-		case extCalleeIs(c, "hashicorp/golang-lru", "Cache", "Add"):
+		case extCalleeIs(c, "hashicorp/golang-lru", "Cache", "Add"), extCalleeIs(c, "hashicorp/golang-lru", "Cache", "ContainsOrAdd"), extCalleeIs(c, "hashicorp/golang-lru", "Cache", "PeekOrAdd"):
 			lk := fl.Of(c.Call.Args[1])
 			lv := fl.Of(c.Call.Args[2])
 			r.CallSites++
